@@ -57,6 +57,10 @@ def defaults_sweep(ctx):
                         for dm in d3["demes"]:
                             dm["defaults"] = {"epoch": {k: valid[k]}}
                         docs.append((d3, f"defaults_sweep:epoch.{k} (shadowed by deme-level defaults)"))
+    # each document is resolved twice, the second time in the REVERSE order of the list: the verdict on a document
+    # must not depend on which documents the process has resolved before it (a value that is valid for one field,
+    # e.g. defaults.migration.start_time 0, is invalid for another, defaults.deme.start_time 0)
+    docs = docs + [(copy.deepcopy(d), t + " (second pass, reverse order)") for d, t in reversed(docs)]
     reps = model_resolve(ctx, [d for d, _ in docs])
     for (d, t), rep in zip(docs, reps):
         code = impl.resolve(d)
